@@ -632,6 +632,12 @@ void bloom_filter_alloc<A>::internal_update(uint64_t h0, uint64_t h1) {
     bit_array_ops::set_bit(bit_array_, hash_index);
   }
   is_dirty_ = true;
+  if (memory_ != nullptr) {
+    // the count stored in the wrapped memory is no longer valid: mark it so that
+    // anyone wrapping or deserializing this memory later recomputes it
+    const uint64_t dirty_value = DIRTY_BITS_VALUE;
+    copy_to_mem(dirty_value, memory_ + NUM_BITS_SET_OFFSET_BYTES);
+  }
 }
 
 // QUERY-AND-UPDATE METHODS
